@@ -14,7 +14,7 @@
     (P1) every outcome with cache equals the outcome without, (P2) a request
     identical to an earlier allowed one of a caching instance is answered
     without a remote call, (P3) the repetitions used one key. *)
-From HV Require Export Base.Prelude C11.Model C11.Spec.
+From HV Require Export Base.Prelude C11.Model C11.Spec C11.Model2 C11.Spec2.
 Local Open Scope string_scope.
 Local Open Scope list_scope.
 
@@ -187,3 +187,85 @@ Definition cs w sha st r := {| c_world := w; c_sha := sha; c_steps := st; c_rep 
 
 (** digests and pre-images with non-printable bytes are written in hex *)
 Definition ux := unhex.
+
+(* ================================================================== second stream: client credentials, jwt finalizer *)
+
+Record obs2 := { o2_key : option string; o2_hit : bool; o2_calls : nat; o2_out : outcome; o2_fresh : outcome }.
+
+Inductive case2 :=
+| CC (sha : alist) (steps : list (cc_cfg * obs2))
+| JF (sha : alist) (kid_conf : option string) (s0 : signer) (steps : list (jstep * option obs2)).
+
+Definition sres_matches2 (m : sres) (o : obs2) : bool :=
+  option_eqb String.eqb (sr_key m) (o2_key o) && Bool.eqb (sr_hit m) (o2_hit o) &&
+  Nat.eqb (sr_calls m) (o2_calls o) && outcome_eqb (sr_out m) (o2_out o).
+
+Fixpoint exec_obs (l : list (jstep * option obs2)) : list obs2 :=
+  match l with
+  | [] => []
+  | (JExec _ _, Some o) :: r => o :: exec_obs r
+  | _ :: r => exec_obs r
+  end.
+
+Fixpoint jf_shape_ok (l : list (jstep * option obs2)) : bool :=
+  match l with
+  | [] => true
+  | (JExec _ _, Some _) :: r | (JReload _, None) :: r => jf_shape_ok r
+  | _ => false
+  end.
+
+Definition corr2 (c : case2) : bool :=
+  match c with
+  | CC sha steps =>
+    let H := H_tab sha in
+    all2 sres_matches2 (cc_run H [] (map fst steps)) (map snd steps) &&
+    forallb (fun x => outcome_eqb (OAllow (cc_result (fst x))) (o2_fresh (snd x))) steps
+  | JF sha kc s0 steps =>
+    let H := H_tab sha in
+    jf_shape_ok steps &&
+    all2 (fun (m : sres * outcome) o => sres_matches2 (fst m) o && outcome_eqb (snd m) (o2_fresh o))
+         (jrun H kc s0 [] (map fst steps)) (exec_obs steps)
+  end.
+
+(** (P2) for client credentials: the same configuration again, caching on: no call to the token endpoint *)
+Fixpoint cc_hits_from (earlier : list cc_cfg) (l : list (cc_cfg * obs2)) : bool :=
+  match l with
+  | [] => true
+  | (c, o) :: r =>
+    (negb (cc_enabled c && existsb (cc_eqb c) earlier) || Nat.eqb (o2_calls o) 0) && cc_hits_from (earlier ++ [c]) r
+  end.
+
+(** (P2) for the finalizer: the same instance and request again with no key-store reload in between, token cacheable: a hit *)
+Fixpoint jf_hits_from (since_reload : list (jf_cfg * jreq)) (l : list (jstep * option obs2)) : bool :=
+  match l with
+  | [] => true
+  | (JExec c q, Some o) :: r =>
+    (negb (jf_stores c && is_allow (o2_fresh o) &&
+           existsb (fun x => jf_cfg_eqb (fst x) c && jreq_eqb (snd x) q) since_reload) || o2_hit o)
+    && jf_hits_from (since_reload ++ [(c, q)]) r
+  | (JReload _, _) :: r => jf_hits_from [] r
+  | _ :: r => jf_hits_from since_reload r
+  end.
+
+Definition prop2 (c : case2) : bool :=
+  match c with
+  | CC _ steps => forallb (fun x => outcome_eqb (o2_out (snd x)) (o2_fresh (snd x))) steps && cc_hits_from [] steps
+  | JF _ _ _ steps => forallb (fun o => outcome_eqb (o2_out o) (o2_fresh o)) (exec_obs steps) && jf_hits_from [] steps
+  end.
+
+Definition check2 (c : case2) : verdict :=
+  {| v_corr := corr2 c;
+     v_prop := prop2 c;
+     v_guards := match c with
+                 | CC _ steps => guards [(4%Z, g_cc_F4 (map fst steps))]
+                 | JF sha kc s0 steps => guards [(4%Z, g_jf_F4 (H_tab sha) kc s0 (map fst steps));
+                                                  (5%Z, g_F5 kc s0 (map fst steps))]
+                 end |}.
+
+Definition ccc u i s sc t b := {| cc_url := u; cc_id := i; cc_secret := s; cc_scopes := sc; cc_ttl := t; cc_body_auth := b |}.
+Definition ob2 k h n o f := {| o2_key := k; o2_hit := h; o2_calls := n; o2_out := o; o2_fresh := f |}.
+Definition jfc k i c t := {| jf_key_id := k; jf_iss := i; jf_claims := c; jf_ttl := t |}.
+Definition jrq sid sj o oj := {| j_sub_id := sid; j_sub_json := sj; j_outputs := o; j_outputs_json := oj |}.
+Definition sgn k g := {| sg_kid := k; sg_gen := g |}.
+Definition jtk sub cl iss kid gen := enc_jtoken {| jt_sub := sub; jt_claims := cl; jt_iss := iss; jt_kid := kid; jt_gen := gen |}.
+Definition cct (c : cc_cfg) := cc_result c.
